@@ -84,6 +84,10 @@ pub struct SlicePlan {
     /// enumerate every record length 0 ..= stated size + 9 (torn and over-long records) instead of `faults`
     #[serde(default)]
     pub sweep: bool,
+    /// before `faults`: 1 = the record is on the medium twice in a row, 2 / 3 = one limb's worth of stale data after /
+    /// before it (a neighbouring, longer record)
+    #[serde(default)]
+    pub glue: u8,
     /// a single explicit record (set by the sweep when it reports, so that the replay is one decode)
     #[serde(default, skip_serializing_if = "Option::is_none")]
     pub record: Option<Vec<u8>>,
@@ -95,6 +99,7 @@ fn plan_json(p: &SlicePlan, record: Option<&[u8]>) -> Option<Value> {
         q.record = Some(r.to_vec());
         q.faults.clear();
         q.sweep = false;
+        q.glue = 0;
     }
     serde_json::to_value(q).ok()
 }
@@ -449,11 +454,52 @@ fn exec(p: &SlicePlan, out: &mut RunOut) {
                 judge(p, &longer, "stale-head", out);
             }
         }
+        // whole units of stale data: one, two limbs' worth at either end, and the record written twice in a row
+        let unit = if p.dec.is_hex() { 16 } else { 8 };
+        for &f in fillers {
+            for units in 1..=2usize {
+                out.count("fault:stale-limb");
+                let mut longer = rec.clone();
+                longer.extend(std::iter::repeat_n(f, unit * units));
+                judge(p, &longer, "stale-limb-tail", out);
+                let mut longer = vec![f; unit * units];
+                longer.extend_from_slice(&rec);
+                judge(p, &longer, "stale-limb-head", out);
+            }
+        }
+        out.count("fault:record-written-twice");
+        let mut twice = rec.clone();
+        twice.extend_from_slice(&rec);
+        judge(p, &twice, "written-twice", out);
         out.count("probe:all-record-lengths-enumerated");
         return;
     }
     let mut cur = rec.clone();
     let mut fired: Vec<&'static str> = Vec::new();
+    {
+        let unit = if p.dec.is_hex() { 16 } else { 8 };
+        let filler = if p.dec.is_hex() { if p.upper { b'F' } else { b'0' } } else if p.upper { 0xff } else { 0x00 };
+        match p.glue {
+            1 => {
+                cur.extend_from_slice(&rec);
+                out.count("fault:record-written-twice");
+                fired.push("written-twice");
+            }
+            2 => {
+                cur.extend(std::iter::repeat_n(filler, unit));
+                out.count("fault:stale-limb");
+                fired.push("stale-limb-tail");
+            }
+            3 => {
+                let mut t = vec![filler; unit];
+                t.extend_from_slice(&cur);
+                cur = t;
+                out.count("fault:stale-limb");
+                fired.push("stale-limb-head");
+            }
+            _ => {}
+        }
+    }
     for f in &p.faults {
         if f.apply(&mut cur) {
             out.count(&format!("fault:{}", f.kind()));
@@ -545,7 +591,7 @@ impl TypedScenario for SliceSc {
         if r.chance(1, 16) {
             let n = r.range(0, 9) as usize;
             let words = if n == 0 { vec![] } else { crate::c16::gen_words(&mut r, n) };
-            return SlicePlan { dec: Dec::BoxedFromWords, limbs: n, precision: 64 * n as u32, read_precision: 64 * n as u32, words, upper: false, hint: r.below(6) as u8, faults: vec![], sweep: false, record: None };
+            return SlicePlan { dec: Dec::BoxedFromWords, limbs: n, precision: 64 * n as u32, read_precision: 64 * n as u32, words, upper: false, hint: r.below(6) as u8, faults: vec![], sweep: false, glue: 0, record: None };
         }
         let dec = *r.pick(&[Dec::BoxedBe, Dec::BoxedBe, Dec::BoxedLe, Dec::BoxedLe, Dec::FixedBe, Dec::FixedLe, Dec::FixedBeHex, Dec::FixedLeHex, Dec::IntBeHex, Dec::BoxedBeHex]);
         let (limbs, precision) = if dec.is_boxed_slice() {
@@ -576,7 +622,8 @@ impl TypedScenario for SliceSc {
                 faults = vec![Fault::SetAt(at, 0xc3), Fault::SetAt(at + 1, 0xa9)];
             }
         }
-        SlicePlan { dec, limbs, precision, read_precision, words, upper: r.chance(1, 2), hint: 0, faults, sweep, record: None }
+        let glue = if !sweep && r.chance(1, 10) { r.range(1, 3) as u8 } else { 0 };
+        SlicePlan { dec, limbs, precision, read_precision, words, upper: r.chance(1, 2), hint: 0, faults, sweep, glue, record: None }
     }
     fn exec(&self, plan: &SlicePlan, out: &mut RunOut) {
         exec(plan, out);
@@ -589,6 +636,11 @@ impl TypedScenario for SliceSc {
         for i in 0..p.faults.len() {
             let mut q = p.clone();
             q.faults.remove(i);
+            v.push(q);
+        }
+        if p.glue != 0 {
+            let mut q = p.clone();
+            q.glue = 0;
             v.push(q);
         }
         for i in 0..p.words.len() {
